@@ -11,11 +11,12 @@ sys.path.insert(0, VERIF)
 os.environ.setdefault('PYTHONHASHSEED', '0')
 
 props = [json.loads(l) for l in open(os.path.join(VERIF, 'properties.jsonl'))]
+CLAIMED = open(os.path.join(VERIF, 'claimed.txt')).read().split()
 checks, na = [], []
 for p in props:
     pid = p['id']
     path = os.path.join(VERIF, 'xlmc', 'checks', pid.lower() + '.py')
-    if not os.path.exists(path):
+    if not os.path.exists(path) or pid not in CLAIMED:
         na.append({'property_id': pid,
                    'reason': 'applicable (bounded-exhaustive exploration, '
                              'DESIGN.md section 4) but its check is not '
